@@ -162,6 +162,7 @@ type FuncVC struct {
 	privCells map[*ssa.Alloc]bool // memo of privateCell (calls.go)
 	edgeHits map[*Clause]int // back-edge clauses: number of edges each was generated for
 	nCanary  int             // returns seen so far (exit canaries are sampled, driver.go)
+	guardN   map[string]int  // guarded accesses seen so far, per field (guarded.go)
 	acquired map[string]int  // lock id -> acquisitions seen so far (reacquire rules, locks.go)
 	frameAll bool
 	allocBoundTerm string
